@@ -509,7 +509,12 @@ type Fetcher struct {
 	// DNEAsValue: an unavailable variable is reported as cached and Get returns the eval.DNE marker
 	// (the other documented way of saying "not available": a DNE value in the bindings)
 	DNEAsValue bool
-	Raw        bool // hand integers over as Go int instead of int64 (a fetcher is free to do so; the engine then sees a value no operator but eq/ne accepts)
+	// Yield: the fetcher gives up the processor (runtime.Gosched) on every Yield-th call of Get / Cached
+	// (0: never). A fetcher may block or be slow; with it the harness owns part of the schedule: other
+	// goroutines run whole evaluations between two fetches of this one (C07).
+	Yield  int
+	yieldN int
+	Raw    bool // hand integers over as Go int instead of int64 (a fetcher is free to do so; the engine then sees a value no operator but eq/ne accepts)
 }
 
 func NewFetcher(u *Universe, cc *eval.Config, log *Log) *Fetcher {
@@ -530,7 +535,17 @@ func NewFetcher(u *Universe, cc *eval.Config, log *Log) *Fetcher {
 	return &Fetcher{Vars: u.Bound(), Fail: u.Fail(), Log: log, Keys: cc.VariableKeyMap}
 }
 
+func (f *Fetcher) yield() {
+	if f.Yield > 0 {
+		f.yieldN++
+		if f.yieldN%f.Yield == 0 {
+			runtime.Gosched()
+		}
+	}
+}
+
 func (f *Fetcher) Get(k eval.VariableKey, s string) (eval.Value, error) {
+	f.yield()
 	f.Log.Ev = append(f.Log.Ev, m.Ev{Get: s})
 	if f.Keys != nil {
 		want, ok := f.Keys[s]
@@ -599,6 +614,7 @@ func (f *Fetcher) Set(k eval.VariableKey, s string, v eval.Value) error {
 }
 
 func (f *Fetcher) Cached(k eval.VariableKey, s string) bool {
+	f.yield()
 	if f.Keys != nil {
 		want, ok := f.Keys[s]
 		if !ok {
